@@ -8,7 +8,7 @@
      Recv{at, from, t, id, set}     ... is read from the connection by rpc.Serve (before its handler runs)
      Import{n, b, ok, trunk}        the node handled a posted block (processBlock); trunk => it calls BroadcastBlock
      TxSubmit{n, t, ok}             a tx handed to the node's pool (AddLocal)
-     Connect{n, p}                  a new connection
+     Connect{n, p}                  a new connection;   Disconnect{n, p}: node n dropped peer p
      Untouched{same}                store digest and pool of every node as at the start (after the hostile phase)
      Marks{n, p, blocks, txs}       the real per-peer marks, network at rest (hook comm.VerifPeerMarks)
      State{n, have, pool}           blocks of the run stored / txs pooled by node n, network at rest
@@ -72,6 +72,18 @@ TConnect ==
   /\ knownB' = [knownB EXCEPT ![<<ev.n, ev.p>>] = {}, ![<<ev.p, ev.n>>] = {}]
   /\ knownT' = [knownT EXCEPT ![<<ev.n, ev.p>>] = {}, ![<<ev.p, ev.n>>] = {}]
   /\ Consume /\ UNCHANGED <<vNode, chan, outbox, fetching, produced, submitted, budget, vHist, txpend, inh>>
+
+\* the node dropped a peer (its protocol handler returned with an error): the peer leaves the peer set, what was in flight
+\* or decided for it is gone
+TDisconnect ==
+  /\ IsEvent("Disconnect")
+  /\ links' = links \ {{ev.n, ev.p}}
+  /\ chan' = [chan EXCEPT ![<<ev.n, ev.p>>] = <<>>, ![<<ev.p, ev.n>>] = <<>>]
+  /\ inh' = [inh EXCEPT ![<<ev.n, ev.p>>] = NoMsg, ![<<ev.p, ev.n>>] = NoMsg]
+  /\ outbox' = {m \in outbox : {m.from, m.to} # {ev.n, ev.p}}
+  /\ fetching' = [fetching EXCEPT ![ev.n] = {e \in @ : e.p # ev.p}]
+  /\ txpend' = [txpend EXCEPT ![<<ev.n, ev.p>>] = 0, ![<<ev.p, ev.n>>] = 0]
+  /\ Consume /\ UNCHANGED <<vNode, vMarks, txsrv, produced, submitted, budget, vHist, txcli>>
 
 \* ---- a message is written --------------------------------------------------------------------------------------
 LoggedMsg == IF ev.t = "txs" THEN MsgS(ev.from, ev.to, ToSet(ev.set)) ELSE Msg(ev.from, ev.to, ev.t, ev.id)
@@ -174,7 +186,7 @@ TEnd ==
 
 TInit == Init /\ l = 1 /\ txcli = [pr \in Pairs |-> "idle"] /\ txpend = [pr \in Pairs |-> 0]
          /\ inh = [pr \in Pairs |-> NoMsg] /\ HWMInit
-TNext == TReset \/ TProduce \/ TImport \/ TTxSubmit \/ TConnect \/ TSend \/ TRecv \/ THandle \/ TDecide \/ TStartTxSync \/ TFetchSkip
+TNext == TReset \/ TProduce \/ TImport \/ TTxSubmit \/ TConnect \/ TDisconnect \/ TSend \/ TRecv \/ THandle \/ TDecide \/ TStartTxSync \/ TFetchSkip
          \/ TUntouched \/ TMarks \/ TState \/ TEnd
 TSpec == TInit /\ [][TNext]_tvars
 
